@@ -1,1 +1,68 @@
 // Kani harnesses compiled as `mod verif_kani` inside /repo/src/daemon/http/auth/authorizer.rs (cfg(kani) only).
+//
+// Kernels: AuthInfo::{check_permission, has_permission} (the test every route
+// handler and every listing filter applies to the authenticated caller).
+use super::*;
+use crate::daemon::http::auth::permission::verif_kani::{any_permission, any_set};
+
+/// Replacement body for `alloc::fmt::format`: the text of the
+/// "insufficient rights" error is not observed, and `core::fmt` is what CBMC
+/// cannot afford (DESIGN 1.2).
+fn no_text(_args: std::fmt::Arguments<'_>) -> String { String::new() }
+
+fn handle(s: &'static str) -> MyHandle { MyHandle::new(s.into()) }
+
+/// An authenticated caller is served exactly what its role allows - for CA
+/// requests and non-CA requests alike - by `check_permission` (the route
+/// gate) and by `has_permission` (the listing filter), which always agree.
+// vk: timeout=600; bound=role without per-CA entries (general and blanket set arbitrary 32-bit patterns), any of the 22 permissions, CA request or non-CA request; alloc::fmt::format stubbed (error text not observed)
+#[kani::proof]
+#[kani::unwind(4)]
+#[kani::stub(std::fmt::format, no_text)]
+fn c13d_authenticated_caller_gets_what_the_role_allows() {
+    let none = any_set();
+    let any = any_set();
+    let p = any_permission();
+    let role = Role::complex(none, any, Default::default());
+    let info = AuthInfo { actor: Actor::user("u"), permissions: Ok(Arc::new(role)) };
+    let ca = handle("ca");
+    let for_ca: bool = kani::any();
+    let res = if for_ca { Some(&ca) } else { None };
+    let checked = info.check_permission(p, res);
+    let has = info.has_permission(p, res);
+    let expect = if for_ca { any.has(p) } else { none.has(p) };
+    assert!(checked.is_ok() == expect);
+    assert!(has == expect);
+    kani::cover!(expect && for_ca);
+    kani::cover!(!expect && !for_ca);
+    std::mem::forget((checked, info, ca));
+}
+
+/// A caller whose authentication FAILED (wrong credentials) is served
+/// nothing: every permission test, for every resource, by both entry points,
+/// says no.
+// vk: timeout=600; bound=AuthInfo carrying an authentication error, any of the 22 permissions, CA request or non-CA request
+#[kani::proof]
+#[kani::unwind(4)]
+#[kani::stub(std::fmt::format, no_text)]
+fn c13d_failed_authentication_grants_nothing() {
+    let p = any_permission();
+    let info = AuthInfo {
+        actor: Actor::anonymous(),
+        permissions: Err(ApiAuthError::ApiInvalidCredentials(String::new())),
+    };
+    let ca = handle("ca");
+    let for_ca: bool = kani::any();
+    let res = if for_ca { Some(&ca) } else { None };
+    let checked = info.check_permission(p, res);
+    let has = info.has_permission(p, res);
+    assert!(checked.is_err());
+    assert!(!has);
+    kani::cover!(for_ca);
+    kani::cover!(!for_ca);
+    std::mem::forget((checked, info, ca));
+}
+
+#[cfg(test)]
+#[path = "/verif/.cache/playback/daemon_http_auth_authorizer.rs"]
+mod playback;
